@@ -86,6 +86,7 @@ def check_c01(pid, tier, seed, replay=None):
             if l == 4 and hs: continue
             ls = PK.opening(l, hs) + sum(([f'psyn 0 {k}' + ('' if (k % 3 == 2 or k == na.get(l, 1) - 1) else ' gp=-1'), 'pout 0', 'pread 0 -1'] for k in range(na.get(l, 0))), []) + ['pclr 0 bdci']
             scns.append(Scn(f'real-L{l}-hs{hs}', ls, 'real-stream-counts', budget=30, cost=len(ls)))
+    for s_ in scns: s_.prelude = PK.prelude(links)
     res = run_batch(pid, scns, bindir, 'pdh', *TRACE, prelude=PK.prelude(links))
     res['infra'] += pr['infra']
     if any(k == 'infra' for k, _, _ in problems + mcproblems): res['infra'].append('TLC failed on a generator / design-level run')
